@@ -20,7 +20,7 @@ ASSUMPTIONS = [
     'protocol errors that pjrpc refuses to construct (reported by the probe) are skipped here and judged by C05',
 ]
 SHARDS = {'quick': 8, 'thorough': 16}
-TIMEOUT = {'quick': 300, 'thorough': 1800}
+TIMEOUT = {'quick': 900, 'thorough': 3600}
 ANCHORS = [
     ('pjrpc/server/dispatcher.py', 'Dispatcher._handle_rpc_method'),
     ('pjrpc/server/dispatcher.py', 'AsyncDispatcher._handle_rpc_method'),
